@@ -73,6 +73,7 @@ pub fn step_kind_byte(s: &Step) -> u8 {
         Step::Q(QOp::Clear) => b'c',
         Step::Q(QOp::Len) => b'l',
         Step::Q(QOp::IsEmpty) => b'e',
+        Step::Prefill(_) => b'P',
     }
 }
 
@@ -271,6 +272,9 @@ pub fn drive(trace: &Trace, stats: &mut Stats, h: &mut dyn StepHandler) -> Vec<F
                 world.exec_hw(op);
                 stats.fault("F9_condition_change");
                 h.on_hw(&world, &before, &model, i, op, stats, &mut findings);
+            }
+            Step::Prefill(b) => {
+                world.prefill = b.0.clone();
             }
             Step::Tst { code } => {
                 world.exec_tst(*code);
